@@ -144,16 +144,22 @@ CHECKS = {
                   'grammar-order specification validated by CPython + bounded runtime contracts on traversal APIs',
         ref='DESIGN.md section 4 C14'),
     'C15': dict(
-        category='exploration',
-        text='Bounded: 12 small programs x on in {enter, leave, both} x back x every step of the walk x 9 mutation '
-             'actions (current node / parent / previous / next sibling; replace, replace by a node with children, '
-             'remove) x send in {None, True, False}, plus leave-mode replace+send(True) and search() under mutation: '
-             'no exception, termination within 6n+60 steps, every yielded node is part of the tree when yielded, no '
-             'node entered twice, children of a replacement are walked unless send(False), final tree satisfies C01 '
-             '(norm=True).',
-        note='Bounded runtime contracts on the real generator. Nothing proved; liveness / termination over arbitrary '
+        category='proof',
+        text='Proof of fragment: one iteration of the on="enter" loop of walk (selected structurally from the real '
+             'source) is executed symbolically for an arbitrary stack top with the heap havocked at every yield - the '
+             'consumer may leave, replace or delete the node it was given and send() up to twice: a dead stack entry '
+             'yields nothing; what is yielded is the .f just read from the popped AST; after a suspension children and '
+             'scope helpers are computed from the re-read .a, a deleted node is not walked, send(False) suppresses and '
+             'send(True) forces the walk of the children (by delegation to an unconditional nested walk when this walk '
+             'is restricted), children are pushed in the order the direction needs (16k path obligations). The whole-'
+             'history part (termination, no node twice, on="leave"/"both", scope helpers) is bounded: 12 small programs '
+             'x on x back x every step x 9 mutation actions x send in {None, True, False}, plus search() under '
+             'mutation; final tree satisfies C01.',
+        note=TB + 'Consumer model stated in evidence (assumptions). Liveness / termination over arbitrary '
              'interleavings is outside the technique.',
-        technique='bounded runtime contracts (liveness / duplication monitor) on walk() under mutation',
+        technique='contract-based deductive verification of the generator between suspension points (symbolic heap '
+                  'havocked at yield, z3) + bounded runtime contracts (liveness / duplication monitor) on walk() '
+                  'under mutation',
         ref='DESIGN.md section 4 C15'),
     'C16': dict(
         category='exploration',
